@@ -150,7 +150,7 @@ Proof.
   unfold format_project.
   destruct (negb (c_ignore_ok c)); [apply two_phase_nil_l; repeat constructor|].
   destruct (c_skip_children c && n_ignored (t_info t)); [apply two_phase_nil_l; constructor|].
-  destruct (n_outcome (t_info t)); try (apply two_phase_nil_l; repeat constructor).
+  destruct (n_outcome (t_info t)); try solve [apply two_phase_nil_l; repeat constructor].
   set (rv := if negb stdin && negb (c_skip_children c) then visit_kids (t_kids t) else ([], Some [])).
   assert (Hrv : Forall (fun e => resolve_ev e = true) (fst rv)).
   { unfold rv. destruct (negb stdin && negb (c_skip_children c)); [apply visit_kids_events'|constructor]. }
@@ -212,13 +212,13 @@ Lemma early_failure_events c stdin t :
   Forall (fun e => e = VersionMismatch \/ e = ConfigErr \/ is_parse_ev e = true) (fst (run_root c stdin t)).
 Proof.
   intros H. unfold run_root, format_input_inner. cbn [fst].
-  destruct (c_version_ok c) eqn:Ev; cbn [negb]; [|repeat constructor; auto].
+  destruct (c_version_ok c) eqn:Ev; cbn [negb]; [|constructor; [auto|constructor]].
   destruct (c_disable_all c); [constructor|].
   unfold format_project.
-  destruct (c_ignore_ok c) eqn:Ei; cbn [negb]; [|repeat constructor; auto].
+  destruct (c_ignore_ok c) eqn:Ei; cbn [negb]; [|constructor; [auto|constructor]].
   destruct (c_skip_children c && n_ignored (t_info t)); [constructor|].
   destruct H as [H|[H|H]]; try discriminate.
-  destruct (n_outcome (t_info t)) eqn:Eo; try (repeat constructor; auto; fail).
+  destruct (n_outcome (t_info t)) eqn:Eo; try solve [constructor; [auto|constructor]].
   rewrite (root_bad_resolve_none c stdin t Eo H). cbn [fst].
   constructor; [auto|].
   eapply Forall_impl'; [|destruct (negb stdin && negb (c_skip_children c)); [apply visit_kids_events'|constructor]].
@@ -305,13 +305,13 @@ Lemma panic_child_lemma c t k check :
   no_emitted (fst (run_root c false t)).
 Proof.
   intros Hv Hd Hi Hn Hs Ho Hin Hk1 Hk2.
+  assert (Hrb : reach_bad k).
+  { destruct k as [ik kk]. cbn in Hk1, Hk2. apply rb_here; [exact Hk1|]. rewrite Hk2. discriminate. }
   assert (Hbad : root_bad c false t).
-  { right. split; [unfold recursive; rewrite Hs; reflexivity|]. exists k. split; [exact Hin|].
-    destruct k as [ik kk]. cbn in Hk1, Hk2. apply rb_here; [exact Hk1|]. rewrite Hk2. discriminate. }
+  { right. split; [unfold recursive; rewrite Hs; reflexivity|]. exists k. split; [exact Hin|exact Hrb]. }
   split; [|split].
-  - unfold run_root, format_input_inner, format_project. rewrite Hv, Hd, Hi. cbn [negb snd].
-    unfold not_looked_at in Hn. rewrite Hd in Hn. cbn [orb] in Hn. rewrite Hn, Ho.
-    rewrite (root_bad_resolve_none c false t Ho Hbad). reflexivity.
+  - unfold run_root, format_input_inner, format_project. rewrite Hv, Hd, Hi, Hs, Ho. cbn [negb andb snd fst].
+    rewrite (visit_kids_none (t_kids t)); [reflexivity|]. exists k. split; [exact Hin|]. apply reach_bad_none. exact Hrb.
   - apply exit_one_on_failure_lemma. right. split; [exact Hd|]. right. split; [exact Hn|exact Hbad].
   - apply no_emit_on_early_failure_lemma. right; right. exact Hbad.
 Qed.
@@ -346,10 +346,10 @@ Lemma run_roots_spec scfg rs :
   snd (run_roots scfg rs) = existsb aborts rs.
 Proof.
   induction rs as [|r rs [IH1 IH2]]; [split; reflexivity|].
-  cbn [run_roots processed existsb map]. unfold aborts at 1 3. rewrite run_one_eq.
-  destruct (negb (r_exists r) || r_is_dir r); cbn [negb andb orb fst snd map].
-  - rewrite IH1, IH2. split; reflexivity.
-  - destruct (r_load r); cbn [fst snd map orb]; rewrite ?IH1, ?IH2; split; reflexivity.
+  pose proof (run_one_eq scfg r) as Hr. cbn [run_roots processed existsb]. unfold aborts at 1 2.
+  destruct (negb (r_exists r) || r_is_dir r); cbn [negb andb orb].
+  - cbn [map fst snd]. rewrite Hr, IH1, IH2. split; reflexivity.
+  - destruct (r_load r); cbn [map fst snd orb]; rewrite Hr, ?IH1, ?IH2; split; reflexivity.
 Qed.
 
 Lemma processed_all rs : existsb aborts rs = false -> processed rs = rs.
